@@ -1059,3 +1059,9 @@ def rules(chk: Check) -> None:
     from .c13 import cardinal_before_weights
     cardinal_before_weights(chk, "R12.6")
     chk.floor("R12.6", 2)
+    # R12.7: the derivative / intertwiner matrices of a basis are those of the very basis functions used by changeBasis and evaluate
+    # (restricted Chebyshev basis and index ranges: shared with C16 R16.1 / R16.2), so that the solution does not depend on the basis
+    from ..core import Remap
+    from . import c16
+    c16.rules(Remap(chk, {"R16.2": "R12.7", "R16.1": "R12.7"}))
+    chk.floor("R12.7", 10)
